@@ -245,8 +245,21 @@ def run(ctx):
                     if op == "inputs":
                         n = rnd.choice([1, 1, 1, 3])
                         rows = E.rows(rnd, spec, n)
+                        typed = rnd.choice([None, None, None, "int array", "bool array", "python int", "list"])
                         for k, v in enumerate(engine.input_variables):
                             v.value = float(rows[0][k]) if n == 1 else np.array([r[k] for r in rows])
+                            col = [r[k] for r in rows]
+                            if typed and all(math.isfinite(x) for x in col):
+                                # values that are not float64 arrays (whole numbers, flags, plain lists): still just input values
+                                if typed == "int array":
+                                    v.value = np.array([int(round(x)) for x in col], dtype=rnd.choice([np.int64, np.int32]))
+                                elif typed == "bool array":
+                                    v.value = np.array([x > 0 for x in col])
+                                elif typed == "python int":
+                                    v.value = int(round(col[0]))
+                                else:
+                                    v.value = [float(x) for x in col]
+                                ctx.hit("input type:" + typed)
                     elif op == "refill":  # the same input arrays, refilled in place (identity-keyed caches would go stale)
                         for k, v in enumerate(engine.input_variables):
                             if isinstance(v.value, np.ndarray) and v.value.ndim == 1 and not v.lock_range and v.value.flags.writeable:
@@ -295,4 +308,4 @@ def run(ctx):
             mon.fresh = {}
         probe.report(ctx)
         reach.report(ctx)
-    ctx.require("hook:Engine.process", "hook:Engine.restart", "hook:Engine.copy", "compare:process vs fresh engine", "compare:restart", "compare:copy", "compare:edit isolation", "graph:objects walked", "event:input arrays refilled in place", "event:toggle and restore")
+    ctx.require("hook:Engine.process", "hook:Engine.restart", "hook:Engine.copy", "compare:process vs fresh engine", "compare:restart", "compare:copy", "compare:edit isolation", "graph:objects walked", "event:input arrays refilled in place", "event:toggle and restore", "input type:int array", "input type:bool array", "input type:python int", "input type:list")
